@@ -11,10 +11,19 @@ fn main() {
     let verif_dir = std::env::var("VERIF_DIR").unwrap_or_else(|_| "/verif".to_string());
     let prop = args[1].as_str();
     a5verif::subj::silence_panics();
+    if prop == "GOLDEN" && args[2] == "gen" {
+        match a5verif::checks::golden::generate(&args[3]) {
+            Ok(()) => std::process::exit(0),
+            Err(e) => {
+                eprintln!("golden generation failed: {}", e);
+                std::process::exit(2);
+            }
+        }
+    }
     if args[2] == "--replay" {
         let body = std::fs::read_to_string(&args[3]).expect("cannot read replay file");
         let v: serde_json::Value = serde_json::from_str(&body).expect("replay file is not JSON");
-        match a5verif::checks::replay(prop, &v["case"]) {
+        match a5verif::checks::replay(prop, &v["case"], &verif_dir) {
             Some(vs) if vs.is_empty() => {
                 println!("replay: property {} holds on this case", prop);
                 std::process::exit(0);
@@ -39,7 +48,7 @@ fn main() {
     }
     let seed: i64 = std::env::var("VERIF_SEED").ok().and_then(|s| s.parse().ok()).unwrap_or(0);
     let start = Instant::now();
-    let rep = match a5verif::checks::run(prop, tier) {
+    let rep = match a5verif::checks::run(prop, tier, &verif_dir) {
         Some(r) => r,
         None => {
             eprintln!("unknown property {}", prop);
